@@ -1303,6 +1303,113 @@ fn size_probe_run(ctx: &mut RunCtx, j: u64) {
     ctx.event(&format!("size-probe {} groups={}", cfg.class(), groups.len()));
 }
 
+// ------------------------------------------------------------------------------------------
+// Step-price perturbation: "the step cost of every machine step taken".
+//
+// Raising the ledger parameter `cek<Kind>Cost-exBudget<CPU|Memory>` by δ must raise the charge
+// by exactly (number of steps of that kind)·δ in that dimension and by nothing in the other —
+// whatever the other parameters are. The step counts come from the machine's own per-kind
+// counters under the unperturbed vector. This pins each parameter *name* to its step kind and
+// dimension without knowing any coefficient.
+
+const STEP_PARAMS: &[(usize, &str)] = &[
+    (0, "CekConstCost"),
+    (1, "CekVarCost"),
+    (2, "CekLamCost"),
+    (3, "CekApplyCost"),
+    (4, "CekDelayCost"),
+    (5, "CekForceCost"),
+    (6, "CekBuiltinCost"),
+    (7, "CekConstrCost"),
+    (8, "CekCaseCost"),
+    (9, "CekStartupCost"),
+];
+
+fn param_index(lang: Lang, name: &str) -> Option<usize> {
+    use uplc::machine::cost_model::ParamName;
+    let find = |list: &[ParamName]| list.iter().position(|p| format!("{p:?}") == name);
+    match lang {
+        Lang::V1 => find(&ParamName::V1),
+        Lang::V2 => find(&ParamName::V2),
+        Lang::V3 => find(&ParamName::V3),
+    }
+}
+
+fn eval_with_vector(term: &Term<NamedDeBruijn>, lang: Lang, vector: &[i64]) -> Option<((i64, i64), Vec<i64>, bool)> {
+    let term = term.clone();
+    guard(|| {
+        let costs = initialize_cost_model_with_protocol(&lang.language(), 11, vector);
+        let mut m = Machine::new_debug_with_protocol(lang.language(), 11, costs, big(), 200);
+        let ok = m.run(term).is_ok();
+        let counters: Vec<i64> = m.spend_counter.map(|c| c.to_vec()).unwrap_or_default();
+        (spent(big(), m.ex_budget), counters, ok)
+    })
+    .ok()
+}
+
+fn step_price_probe(ctx: &mut RunCtx, prog: &Prog, src: Option<&str>) {
+    let lang = prog.home;
+    let base: Vec<i64> = match lang {
+        Lang::V3 => corpus().v3_costs.clone(),
+        _ => corpus().v2_costs.clone(),
+    };
+    let Some(((c_cpu, c_mem), counters, ok)) = eval_with_vector(&prog.term, lang, &base) else {
+        return;
+    };
+    if !ok || counters.len() < 20 {
+        return;
+    }
+    let model = initialize_cost_model_with_protocol(&lang.language(), 11, &base);
+    let delta = 1000 + ctx.rng.range(1, 5000);
+    for (kind, name) in STEP_PARAMS {
+        let count = if *kind == 9 {
+            1
+        } else {
+            let price = model.machine_costs.get(StepKind::try_from(*kind as u8).unwrap());
+            if price.mem > 0 {
+                counters[kind * 2] / price.mem
+            } else if price.cpu > 0 {
+                counters[kind * 2 + 1] / price.cpu
+            } else {
+                continue;
+            }
+        };
+        for (dim, suffix) in [("cpu", "_exBudgetCPU"), ("mem", "_exBudgetMemory")] {
+            let pname = format!("{name}{suffix}");
+            let Some(i) = param_index(lang, &pname).filter(|i| *i < base.len()) else {
+                continue;
+            };
+            let mut v = base.clone();
+            v[i] += delta;
+            let Some(((cpu, mem), _, ok2)) = eval_with_vector(&prog.term, lang, &v) else {
+                continue;
+            };
+            ctx.stats.inc("evaluations", 1);
+            ctx.stats.inc("step_price_perturbations", 1);
+            let want = if dim == "cpu" { (c_cpu + count * delta, c_mem) } else { (c_cpu, c_mem + count * delta) };
+            if !ok2 || (cpu, mem) != want {
+                ctx.violation(
+                    PROP,
+                    "step-price",
+                    format!("step-price|{pname}|{}", lang.tag()),
+                    format!(
+                        "program {} ({} steps of this kind) under the {} ledger vector: raising {pname} by {delta} changes the charge from cpu={c_cpu} mem={c_mem} to cpu={cpu} mem={mem}; it must become cpu={} mem={}",
+                        prog.id, count, lang.tag(), want.0, want.1
+                    ),
+                    json!({
+                        "kind": "step-price",
+                        "program": prog.id,
+                        "source": src,
+                        "lang": lang.tag(),
+                        "param": pname,
+                        "delta": delta,
+                    }),
+                );
+            }
+        }
+    }
+}
+
 const SIZE_PROBE_RUNS_QUICK: u64 = 16;
 const SIZE_PROBE_RUNS_THOROUGH: u64 = 64;
 const COMPILED_RUNS_QUICK: u64 = 140;
@@ -1484,6 +1591,11 @@ impl Engine for BudgetEngine {
         }
         let cfgs = configs_for(&mut ctx.rng, &prog, ctx.tier);
         ctx.event(&format!("configs {:?}", cfgs.iter().map(|c| c.class()).collect::<Vec<_>>()));
+        if prog.source == ProgSource::Corpus && (pass == 0) {
+            step_price_probe(ctx, &prog, src.as_deref());
+        } else if prog.source == ProgSource::Generated && ctx.k % 4 == 0 {
+            step_price_probe(ctx, &prog, src.as_deref());
+        }
         let walk = ctx.tier == Tier::Thorough && (pass == 0 || prog.source == ProgSource::Generated)
             || (ctx.tier == Tier::Quick && ctx.k % 16 == 0);
         for (i, cfg) in cfgs.iter().enumerate() {
@@ -1506,6 +1618,19 @@ impl Engine for BudgetEngine {
     }
 
     fn replay(&self, trace: &Value, ctx: &mut RunCtx) {
+        if jstr(trace, "kind") == "step-price" {
+            let id = jstr(trace, "program");
+            let src = trace.get("source").and_then(|s| s.as_str());
+            let prog = match src {
+                Some(src) => parse_source(src).map(|term| Prog { id: id.clone(), source: ProgSource::Generated, term, golden: None, home: Lang::parse(&jstr(trace, "lang")) }),
+                None => corpus().programs.iter().find(|p| p.id == id).and_then(|p| p.parse()),
+            };
+            match prog {
+                Some(p) => step_price_probe(ctx, &p, src),
+                None => ctx.harness_error("replay: unknown program".into()),
+            }
+            return;
+        }
         if jstr(trace, "kind") == "size-probe" {
             let cfg = Config::from_json(trace.get("config").unwrap_or(&Value::Null));
             let family = jstr(trace, "family");
